@@ -4,7 +4,10 @@ M: MC_ZMethod (the round machine of ZMethod.tla on every small call: terminates,
    the x band dropped).
 T: recorded calls of zmethod.knees judged by Trace_ZMethod against the property-level operator ZClause and the
    round bound; floats are reduced to integer x, height ranks and a boolean y-separation table.
-DRIFT (notes only): the implementation-shaped machine replayed by TLC on the recorded tables of small calls."""
+DRIFT (notes only): the implementation-shaped machine replayed by TLC on the recorded tables of small calls.
+SCALE: production-size curves (n = 257 .. about 10^5, sizes straddling 2^8 .. 2^16, 10^4, 10^5) rebuilt from a compact
+   spec inside the worker, replayed into zmethod.knees and judged by the SAME Trace_ZMethod cases: the tables are sparse
+   by construction (x, height ranks and y-separation of the RETURNED knees only; w and the y band from the FULL curve)."""
 import dis
 import json
 import math
@@ -13,7 +16,7 @@ import sys
 
 import numpy as np
 
-from harness import curves, monitor, par
+from harness import curves, monitor, par, scale
 
 PARAMS = (0.01, 0.05, 0.1, 0.3, 0.5, 1)
 SLACK = 2            # on top of ceil((3 - z_min)/dz) + n + 2 (float accumulation of `outlier_z -= dz`)
@@ -77,7 +80,8 @@ def _limit(x, y, dz):
 def _record(item):
     """One call of zmethod.knees -> (case for Trace_ZMethod, replay meta, machine case or None)."""
     from kneeliverse import zmethod
-    cid, P, dx, dy, dz, x_max, y_range, want_machine = item
+    cid, P, dx, dy, dz, x_max, y_range, want_machine = item[:8]
+    spec = item[8] if len(item) > 8 else None          # scale family: the curve is rebuilt from its spec on replay
     P = np.asarray(P, float)
     n = len(P)
     x = P[:, 0].copy()
@@ -126,7 +130,7 @@ def _record(item):
              for b, vb in zip(res, valid)] for a, va in zip(res, valid)]
     case = {"id": cid, "n": n, "outcome": outcome, "steps": int(steps), "limit": int(limit),
             "res": res, "xk": xk, "hk": hk, "w": int(w), "ysep": ysep}
-    meta = {"points": P.tolist(), "dx": dx, "dy": dy, "dz": dz, "x_max": x_max, "y_range": y_range,
+    meta = {"points": P.tolist() if spec is None else None, "spec": spec, "dx": dx, "dy": dy, "dz": dz, "x_max": x_max, "y_range": y_range,
             "error": err, "backedges": counts}
     mach = _machine_case(cid, x, y, z, w, h, dz, ymin) if want_machine else None
     return case, meta, mach
@@ -266,6 +270,172 @@ def inputs(ctx):
     return items
 
 
+# ------------------------------------------------------------------ scale family (production-size inputs)
+# Every curve is a deterministic function of its spec (rebuilt inside the worker and on --replay, never shipped as a
+# point list): strictly increasing non-negative integer x < 2^30, y in [0, 1].
+S_DX = {"wide": (0.02, 0.05, 0.1, 0.3), "fine": (0.001, 0.002, 0.005, 0.01), "noisy": (0.01, 0.05, 0.1, 0.3)}
+S_DY = {"wide": (0.01, 0.02, 0.05, 0.1), "fine": (0.001, 0.002, 0.005, 0.01), "noisy": (0.01, 0.05, 0.1, 0.3)}
+S_DZ = (0.05, 0.05, 0.1, 0.3, 0.5, 1)
+S_XMAX = (None, "last", "last+1", "2n", "n/2")
+S_YRANGE = (None, "unit", "own", "pad", "top")
+
+
+def _sc_x(rs, n, xmode):
+    """0: 0..n-1; 1: offset + unit gaps; 2: gaps 1..5; 3: clusters and wide gaps; 4: gaps 1..2000; offsets up to 3*10^8."""
+    if xmode == 0:
+        return np.arange(n, dtype=float)
+    if xmode == 1:
+        gaps = np.ones(n, dtype=np.int64)
+    elif xmode == 2:
+        gaps = rs.integers(1, 6, n)
+    elif xmode == 3:
+        gaps = rs.choice(np.array([1, 1, 1, 2, 12]), n)
+    else:
+        gaps = rs.integers(1, 2001, n)
+    start = int(rs.choice(np.array([0, 1, 7, 4096, 1000000, 300000000])))      # x stays below 2^30 (TLC integers)
+    return (start + np.cumsum(gaps) - gaps[0]).astype(float)
+
+
+def _sc_steps(n, pos, amt):
+    """y[i] = sum of amt[j] over the events with pos[j] > i: a sharp drop of amt[j] at index pos[j] (exact plateaus,
+    exactly 0 after the last event)."""
+    st = np.zeros(n + 1)
+    np.add.at(st, np.asarray(pos, dtype=np.int64), np.asarray(amt, dtype=float))
+    return np.cumsum(st[::-1])[::-1][1:]
+
+
+def _sc_cliffs(rs, n, x, K, w, bumps):
+    """Gentle convex decay + K sharp working-set drops at random places + 'twin' drops planted at 0.08..0.97 of the
+    separation width w after an existing one (two sharp knees closer than the property allows, far apart in absolute
+    terms when n is large).  bumps: also upward steps and short humps (knees to the right may be higher: work for
+    the final sweep)."""
+    i = np.arange(n, dtype=float)
+    y = float(rs.choice(np.array([0.0, 0.05, 0.15]))) * np.exp(-i / (0.4 * n))
+    m = max(2, n // 50)
+    K = max(1, min(K, (n - 2 * m) // 2))
+    pos = np.sort(rs.choice(np.arange(m, n - m), size=K, replace=False))
+    extra = []
+    for p in rs.choice(pos, size=max(2, K // 4)):
+        d = max(1, int(rs.uniform(0.08, 0.97) * w))
+        q = int(np.searchsorted(x, x[p] + d))
+        if p < q < n - 2:
+            extra.append(q)
+    pos = np.unique(np.concatenate([pos, np.array(extra, dtype=np.int64)]))
+    amt = rs.uniform(0.5, 1.5, len(pos))
+    amt *= 0.8 / amt.sum()
+    y = y + 0.02 + _sc_steps(n, pos, amt)
+    if bumps:
+        R = max(1, len(pos) // 3)
+        rp = rs.choice(np.arange(m, n - m), size=R, replace=False)
+        ra = rs.uniform(0.5, 1.5, R)
+        ra *= 0.15 / ra.sum()
+        y = y - _sc_steps(n, rp, ra) + 0.15
+        for _ in range(int(rs.integers(1, 7))):
+            c = int(rs.integers(1, n - 1))
+            wd = int(rs.integers(1, 5))
+            y[max(0, c - wd):c + wd] += rs.uniform(0.02, 0.2)
+    return np.clip(y, 0.0, 1.0)
+
+
+def _sc_y(spec, rs, pr, n, x, w):
+    shape = spec["shape"]
+    K = int(spec.get("K", 8))
+    i = np.arange(n, dtype=float)
+    if shape == "cliffs":
+        return _sc_cliffs(rs, n, x, K, w, False)
+    if shape == "bumps":
+        return _sc_cliffs(rs, n, x, K, w, True)
+    if shape == "texture":     # hyperbola + a periodic small texture on a coarse grid: exact ties in y and in z (aliasing bait)
+        period = int(rs.integers(2, 8))
+        pat = rs.integers(-3, 4, period) * float(rs.choice(np.array([1e-4, 1e-3])))
+        y = 0.9 / (1.0 + rs.uniform(2, 40) * i / n) + 0.05 + scale.tile(pat, n)
+        return np.clip(np.round(y, int(rs.choice(np.array([3, 4])))), 0.0, 1.0)
+    if shape == "walk":        # random walk down with jumps up, on the 1e-4 grid
+        st = rs.choice(np.array([-0.1, -0.05, -0.05, -0.01, 0, 0, 0.05]), n) * (40.0 / n) * rs.choice(np.array([1.0, 1.0, 0.3]), n)
+        return np.clip(np.round(1.0 + np.cumsum(st), 4), 0.0, 1.0)
+    if shape == "stairs":      # shared builder: flat plateaus, sharp drops, range exactly [0, 1]
+        y = scale.staircase(n, K, rng=pr, grow=bool(spec.get("grow")))[:, 1]
+        return np.clip(y / y.max(), 0.0, 1.0)
+    if shape == "mrc":         # shared builder: convex decay pieces separated by cliffs
+        y = scale.mrc(n, pr, knees=K)[:, 1]
+        return np.clip(y / y.max(), 0.0, 1.0)
+    if shape == "flat":        # constant / two-level curves (zero y range, y_min == 1)
+        c = float(rs.choice(np.array([1.0, 0.5, 0.0])))
+        y = np.full(n, c)
+        if rs.random() < 0.5:
+            y[int(rs.integers(1, n)):] = float(rs.choice(np.array([0.0, 0.25, c])))
+        return y
+    raise ValueError("unknown scale shape %r" % shape)
+
+
+def _sc_build(spec):
+    """spec -> (points, x_max, y_range) with the symbolic overrides resolved against the curve."""
+    import random
+    n = int(spec["n"])
+    rs = np.random.default_rng([int(spec["seed"]), n])
+    pr = random.Random(int(spec["seed"]) * 7919 + n)
+    x = _sc_x(rs, n, int(spec.get("xmode", 0)))
+    xm = {None: None, "last": int(x[-1]), "last+1": int(x[-1]) + 1, "2n": 2 * n, "n/2": max(1, n // 2)}[spec.get("x_max")]
+    w = max(1, int(math.floor((xm if xm else n) * spec["dx"])))
+    y = _sc_y(spec, rs, pr, n, x, w)
+    if not (len(y) == n and np.all(np.diff(x) > 0) and x[0] >= 0 and x[-1] < 2 ** 30 and y.min() >= 0 and y.max() <= 1):
+        raise RuntimeError("scale builder left the property's domain: %r" % (spec,))
+    ymx, ymn = float(y.max()), float(y.min())
+    yr = {None: None, "unit": [1.0, 0.0], "own": [ymx, ymn], "pad": [min(1.0, ymx + 0.1), max(0.0, ymn - 0.1)],
+          "top": [1.0, ymn]}[spec.get("y_range")]
+    return np.ascontiguousarray(np.column_stack([x, y])), xm, yr
+
+
+def _record_scale(item):
+    cid, spec, dy, dz = item
+    P, xm, yr = _sc_build(spec)
+    case, meta, _ = _record((cid, P, spec["dx"], dy, dz, xm, yr, False, spec))
+    meta["shape"] = spec["shape"]
+    return case, meta, None
+
+
+def _record_any(item):
+    return _record_scale(item) if len(item) == 4 else _record(item)
+
+
+def scale_inputs(ctx):
+    """Sizes straddling 2^8 .. 2^16, 10^4, 10^5 (harness.scale.sizes) x shapes x parameter flavours:
+    wide = a handful of knees (dx, dy of a few percent), fine = hundreds of knees (dx, dy of 0.1 .. 1 percent)."""
+    rng = ctx.rng
+    ns = scale.sizes(ctx, lo=250, hi=110000, k_quick=12, k_thorough=24)
+    reps = 1 if ctx.quick else 3
+    items = []
+    for n in ns:
+        for rep in range(reps):
+            plan = [("cliffs", "wide", True), ("cliffs", "fine", True), ("cliffs", rng.choice(["wide", "fine"]), False),
+                    ("bumps", "wide", rng.random() < 0.5), ("bumps", "fine", rng.random() < 0.5),
+                    (rng.choice(["cliffs", "bumps"]), rng.choice(["wide", "fine"]), rng.random() < 0.6),
+                    ("texture", "noisy", False), ("walk", "noisy", False),
+                    ("stairs", rng.choice(["wide", "fine"]), False), ("mrc", "wide", False)]
+            if rng.random() < 0.34:
+                plan.append(("flat", "wide", False))            # see the note on constant curves below
+            for j, (shape, fl, defaults) in enumerate(plan):
+                dx, dy, dz = rng.choice(S_DX[fl]), rng.choice(S_DY[fl]), rng.choice(S_DZ)
+                if fl != "noisy" and rng.random() < 0.1:
+                    dz = 0.01                                   # many rounds
+                K = rng.randint(8, 40) if fl == "wide" else rng.randint(60, 300)
+                spec = {"shape": shape, "n": n, "seed": rng.randrange(1 << 30), "K": min(K, max(1, n // 20)), "dx": dx,
+                        "xmode": rng.randint(1, 4) if j in (2, 5) else (0 if j < 5 else rng.randint(0, 4)),
+                        "x_max": None if defaults or rng.random() < 0.5 else rng.choice(S_XMAX),
+                        "y_range": None if defaults or rng.random() < 0.5 else rng.choice(S_YRANGE)}
+                if shape == "flat":
+                    # a constant curve has a zero y band: the knees are limited by the x band alone, the code's guard
+                    # `all(... for i in outlier_points)` makes the call quadratic in their number, and with wide x gaps
+                    # (x range / w of the order of 10^4) the UNCHANGED code needs minutes.  Keep x range / w <= 2 / dx.
+                    spec["xmode"] = rng.randint(0, 1)
+                if shape == "stairs":
+                    spec["grow"] = rng.random() < 0.3
+                    if spec["grow"]:
+                        spec["K"] = min(spec["K"], 40)
+                items.append(("s%d_%d_%d" % (n, rep, j), spec, dy, dz))
+    return items, ns
+
+
 # ------------------------------------------------------------------ static self-test cases (hand-checkable)
 def _selftests():
     good = {"n": 10, "outcome": "returned", "steps": 40, "limit": 75, "res": [2, 5, 8], "xk": [3, 9, 20],
@@ -300,14 +470,20 @@ def model_checks(ctx):
     ctx.mc("MC_ZMethod", "MC_ZMethod_xband", expect="ResultOk")
 
 
-def _validate(ctx, rec, selftest=None):
+def _validate(ctx, rec, selftest=None, chunk=4000):
     cases = [c for c, _, _ in rec]
     meta = {c["id"]: m for c, m, _ in rec}
     # one TLC run at a time: harness.tlc names a run's metadir by module, cfg and the millisecond it starts,
     # so chunks started together by ctx.trace's thread pool can collide (seen once as a TLC crash)
-    rej = ctx.trace("Trace_ZMethod", cases, selftest=selftest, chunk=4000, procs=1)
+    rej = ctx.trace("Trace_ZMethod", cases, selftest=selftest, chunk=chunk, procs=1)
     for cid, vs in rej.items():
         m = meta[cid]
+        if m.get("spec") is not None:        # scale family: the replay file carries the spec, not 10^5 points
+            c = next(c for c in cases if c["id"] == cid)
+            ctx.violation(vs[0][0], {"kind": "S", "spec": m["spec"], "dy": m["dy"], "dz": m["dz"]},
+                          {"verdict": vs[0], "n": c["n"], "dx": m["dx"], "dy": m["dy"], "dz": m["dz"], "x_max": m["x_max"],
+                           "y_range": m["y_range"], "knees": len(c["res"]), "error": m["error"], "backedges": m["backedges"]})
+            continue
         ctx.violation(vs[0][0], {"kind": "T", "points": m["points"], "dx": m["dx"], "dy": m["dy"], "dz": m["dz"],
                                  "x_max": m["x_max"], "y_range": m["y_range"]},
                       {"verdict": vs[0], "error": m["error"], "backedges": m["backedges"]})
@@ -348,13 +524,42 @@ def _drift(ctx, rec):
     ctx.extra["drift_mismatches"] = drift
 
 
+def _scale_evidence(ctx, scases, meta, sizes):
+    by = {}
+    for c in scases:
+        m = meta[c["id"]]
+        e = by.setdefault(m["shape"], {"calls": 0, "two_or_more_knees": 0, "max_knees": 0})
+        e["calls"] += 1
+        e["two_or_more_knees"] += len(c["res"]) >= 2
+        e["max_knees"] = max(e["max_knees"], len(c["res"]))
+    ctx.extra["scale"] = {
+        "calls": len(scases), "sizes": sizes, "by_shape": by,
+        "calls_over_10000_points": sum(1 for c in scases if c["n"] > 10000),
+        "calls_with_100plus_knees": sum(1 for c in scases if len(c["res"]) >= 100),
+        "calls_with_default_x_max_and_y_range": sum(1 for c in scases if meta[c["id"]]["x_max"] is None
+                                                    and meta[c["id"]]["y_range"] is None),
+        "rightmost_knee_index": max([max(c["res"]) for c in scases if c["res"]] or [0]),
+        "outcomes": {o: sum(1 for c in scases if c["outcome"] == o) for o in sorted(set(c["outcome"] for c in scases))},
+        "json_bytes_to_tlc": sum(len(json.dumps(c)) for c in scases)}
+    big = [c for c in scases if c["n"] > 10000 and len(c["res"]) >= 3]
+    for c in big[:1]:
+        m = meta[c["id"]]
+        ctx.sample({"binding": "T", "family": "scale", "case": c, "spec": m["spec"],
+                    "call": {k: m[k] for k in ("dx", "dy", "dz", "x_max", "y_range")}, "n": c["n"]})
+
+
 def run(ctx):
     from harness import growth
     growth.safe(ctx, growth.knees2)
     ctx.rule = ("T: zmethod.knees on miss-ratio-like curves (harness.curves.mrc_curve and own families with plateaus, "
                 "coarse height grids, bumps, clusters of x; n = 4..200) x dx,dy,dz in {0.01,0.05,0.1,0.3,0.5,1} x "
                 "optional x_max / y_range overrides. non-trivial: the call returned at least two knees "
-                "(there is a pair whose order, heights and separation are judged)")
+                "(there is a pair whose order, heights and separation are judged). "
+                "SCALE family: production-size curves (n = 257 .. about 10^5, sizes straddling 2^8..2^16, 10^4 and 10^5; sharp "
+                "cliffs with planted twin drops closer than the separation width, bumps, periodic texture, random walks, the "
+                "shared staircase / mrc builders, flat curves; unit, clustered and wide x gaps; dx, dy from 0.001 to 0.3, "
+                "default and overridden x_max / y_range) replayed into zmethod.knees and judged for every clause by the same "
+                "Trace_ZMethod cases, whose tables mention the returned knees only while w and the y band come from the FULL curve")
     ctx.assumptions += [
         "x is integral by precondition and passed to TLC as integers < 2^30; heights as exact dense ranks of the "
         "returned knees' y; y-separation as the boolean |y_a-y_b| >= (y_max-y_min)*dy - 1e-12 (slack favours the code)",
@@ -365,15 +570,35 @@ def run(ctx):
         "aborted and recorded with outcome budget/watchdog -> clause terminates",
         "MC_ZMethod: gaps range over 1..min(GapMax,w) (a gap > w decides every comparison like a gap = w); the "
         "visiting order of groups whose ZLevel ties is arbitrary (superset of the code's order by exact z)",
-        "the machine's final sweep starts from a minimum no height exceeds (y <= 1 on the property's domain)"]
+        "the machine's final sweep starts from a minimum no height exceeds (y <= 1 on the property's domain)",
+        "scale family: every curve is a deterministic function of its spec (shape, n, seed, K, dx, x gap mode, symbolic x_max / "
+        "y_range override; builders in this file and harness.scale), rebuilt inside the worker and on --replay; it is judged by "
+        "the same case record and the same budgets as the small calls (over 5 000 calls of the unchanged code the peak was 9 s "
+        "of CPU and 5*10^6 back-edges against 60 s and more than 10^13); constant curves keep unit x gaps (their knees are "
+        "limited by the x band alone and the code's selection guard is quadratic in the number of knees)"]
     model_checks(ctx)
     items = inputs(ctx)
-    rec = par.pmap(_record, items)
-    cases, meta = _validate(ctx, rec, selftest=_selftests())
+    sitems, ssizes = scale_inputs(ctx)           # drawn AFTER the small inputs: those stay what they were for a given seed
+    # one worker pool for both families (a second pool would pay the per-worker import of the library again); the long
+    # curves are spread evenly over the small ones so that no chunk of the pool's work consists of long curves only
+    mixed = list(items)
+    stride = max(1, len(items) // max(1, len(sitems)))
+    for k, it in enumerate(sitems):
+        mixed.insert(min(len(mixed), k * (stride + 1)), it)
+    both = par.pmap(_record_any, mixed)
+    rec = [r for r in both if r[1].get("spec") is None]
+    srec = [r for r in both if r[1].get("spec") is not None]
+    if ctx.quick:                                # one TLC run for both families
+        cases, meta = _validate(ctx, rec + srec, selftest=_selftests())
+    else:
+        cases, meta = _validate(ctx, rec, selftest=_selftests())
+        sc, sm = _validate(ctx, srec, chunk=150)  # a few MB of JSON per TLC run
+        cases, meta = cases + sc, dict(meta, **sm)
+    _scale_evidence(ctx, [c for c, _, _ in srec], meta, ssizes)
     for c in cases:
         m = meta[c["id"]]
-        ctx.count((m["points"], m["dx"], m["dy"], m["dz"], m["x_max"], m["y_range"]),
-                  c["outcome"] == "returned" and len(c["res"]) >= 2)
+        ctx.count((m["points"], m["dx"], m["dy"], m["dz"], m["x_max"], m["y_range"]) if m.get("spec") is None
+                  else (m["spec"], m["dy"], m["dz"]), c["outcome"] == "returned" and len(c["res"]) >= 2)
     ctx.extra["calls_with_3plus_knees"] = sum(1 for c in cases if len(c["res"]) >= 3)
     ctx.extra["max_steps_over_limit"] = round(max(c["steps"] / c["limit"] for c in cases), 3)
     _drift(ctx, rec)
@@ -385,5 +610,8 @@ def run(ctx):
 
 def replay(ctx, obj):
     c = obj["case"]
+    if c.get("kind") == "S":
+        _validate(ctx, [_record_scale(("replay", c["spec"], c["dy"], c["dz"]))])
+        return
     rec = [_record(("replay", c["points"], c["dx"], c["dy"], c["dz"], c.get("x_max"), c.get("y_range"), False))]
     _validate(ctx, rec)
